@@ -27,6 +27,7 @@ import (
 	"github.com/ElrondNetwork/elrond-go/core"
 	"github.com/ElrondNetwork/elrond-go/core/forking"
 	"github.com/ElrondNetwork/elrond-go/data/block"
+	"github.com/ElrondNetwork/elrond-go/data/smartContractResult"
 	"github.com/ElrondNetwork/elrond-go/data/transaction"
 	"github.com/ElrondNetwork/elrond-go/process"
 	"github.com/ElrondNetwork/elrond-go/process/economics"
@@ -155,6 +156,20 @@ type txT struct {
 	Dl        int
 	Value     *big.Int
 	Bi        uint64
+	Scr       bool // the object handed to the fee functions is a *smartContractResult.SmartContractResult
+}
+
+// mk builds the object the fee functions are called with
+func (s *sut) mk(t txT) process.TransactionWithFeeHandler {
+	if t.Scr {
+		var d []byte
+		if t.Dl > 0 {
+			d = []byte(strings.Repeat("x", t.Dl))
+		}
+		return &smartContractResult.SmartContractResult{GasPrice: t.Price, GasLimit: t.Gl, Data: d, Value: new(big.Int).Set(t.Value),
+			RcvAddr: rcvAddr, SndAddr: rcvAddr}
+	}
+	return s.mkTx(t)
 }
 
 func (s *sut) mkTx(t txT) *transaction.Transaction {
@@ -209,7 +224,7 @@ type feeObs struct {
 }
 
 func (s *sut) qFee(t txT) feeObs {
-	tx := s.mkTx(t)
+	tx := s.mk(t)
 	o := feeObs{kind: "Fee"}
 	o.valid = validClass(s.ed.CheckValidityTxValues(tx))
 	o.moveGas = s.ed.ComputeGasLimit(tx)
@@ -312,11 +327,11 @@ func cfgFromJSON(in M) (cfgT, M) {
 func txFromJSON(v interface{}) txT {
 	m := v.(map[string]interface{})
 	return txT{Price: uint64(vtrace.Int(m["price"])), Gl: uint64(vtrace.Int(m["gl"])), Dl: vtrace.Int(m["dl"]),
-		Value: big.NewInt(int64(vtrace.Int(m["value"]))), Bi: uint64(vtrace.Int(m["bi"]))}
+		Value: big.NewInt(int64(vtrace.Int(m["value"]))), Bi: uint64(vtrace.Int(m["bi"])), Scr: m["scr"] == true}
 }
 
 func txJSON(t txT) M {
-	return M{"price": int(t.Price), "gl": int(t.Gl), "dl": t.Dl, "value": small(t.Value), "bi": int(t.Bi)}
+	return M{"price": int(t.Price), "gl": int(t.Gl), "dl": t.Dl, "value": small(t.Value), "bi": int(t.Bi), "scr": t.Scr}
 }
 
 func (s *sut) query(a string, in M) feeObs {
@@ -369,6 +384,9 @@ func branch(a string, in M, out M) string {
 	s += "/" + vtrace.Str(out["valid"])
 	if vtrace.Int(tx["bi"]) > 0 {
 		s += "/builtin"
+	}
+	if tx["scr"] == true {
+		s += "/scr"
 	}
 	if a == "Refund" {
 		if vtrace.Int(in["r"]) > 0 {
@@ -626,6 +644,7 @@ func record(seed int64, traces, n int, out string, kinds string) {
 			var o feeObs
 			switch kind {
 			case 0:
+				tx.Scr = tx.Bi == 0 && rng.Intn(4) == 0
 				a, in = "Fee", M{"tx": txJSON(tx)}
 				o = s.qFee(tx)
 			case 1:
